@@ -226,6 +226,7 @@ void circuit_read_single_operation(Circuit &circuit, char lead_char, SOURCE read
     } catch (const std::invalid_argument &ex) {
         circuit.target_buf.discard_tail();
         circuit.arg_buf.discard_tail();
+        circuit.tag_buf.discard_tail();
         throw ex;
     }
 
